@@ -190,6 +190,14 @@ impl BetTable {
             file_flags.push(cursor.read_u32::<LittleEndian>()?);
         }
 
+        // Every file takes table_entry_size bits of the file table; with a zero entry size any
+        // file_count would pass the size check below and be enumerated entry by entry
+        if header.file_count > 0 && header.table_entry_size == 0 {
+            return Err(Error::invalid_format(
+                "BET table has files but a zero table entry size",
+            ));
+        }
+
         // Calculate sizes
         let file_table_size = (header.file_count as usize)
             .checked_mul(header.table_entry_size as usize)
